@@ -43,6 +43,7 @@ type Output struct {
 	AltAgree     int            `json:"alt_agree"`
 	AltDisagree  int            `json:"alt_disagree"`
 	Reach        map[string]int `json:"reach"`
+	Known        map[string]int `json:"known"`
 	Funcs        []string       `json:"functions_encoded"`
 	Stubs        []string       `json:"stubs_used"`
 	WallSec      float64        `json:"wall_seconds"`
@@ -72,6 +73,7 @@ func main() {
 	slog := flag.String("solverlog", "", "write worker 0's solver input here")
 	list := flag.Bool("list", false, "list harness functions and exit")
 	nomerge := flag.Bool("nomerge", false, "disable if-conversion of pure diamonds")
+	fixed := flag.String("model", "", "json file name->value: run concretely with these inputs")
 	budget := flag.Int("budget", 0, "wall-clock budget in seconds (0 = none); exceeding it makes the run incomplete")
 	flag.Parse()
 
@@ -156,6 +158,16 @@ func main() {
 	if *budget > 0 {
 		c.Deadline = time.Now().Add(time.Duration(*budget) * time.Second)
 	}
+	if *fixed != "" {
+		b, err := os.ReadFile(*fixed)
+		if err != nil {
+			fatal(err)
+		}
+		c.Fixed = map[string]uint64{}
+		if err := json.Unmarshal(b, &c.Fixed); err != nil {
+			fatal(err)
+		}
+	}
 	if *known != "" {
 		b, err := os.ReadFile(*known)
 		if err == nil {
@@ -175,7 +187,7 @@ func main() {
 	o := Output{Harness: *harness, Pkg: *pkgPat, Paths: st.Paths, ByKind: st.ByKind, Branches: st.Branches,
 		Obligations: st.Obligations, Discharged: st.Discharged, ConcreteObl: st.ConcreteObl,
 		SolverQ: st.SolverQ, SolverSec: st.SolverTime.Seconds(), SolverErrors: st.SolverErrors, Inconclusive: st.Inconclusive,
-		AltAgree: st.AltAgree, AltDisagree: st.AltDisagree, Reach: st.Reach,
+		AltAgree: st.AltAgree, AltDisagree: st.AltDisagree, Reach: st.Reach, Known: st.Known,
 		Funcs: sortedKeys(st.Funcs), Stubs: sortedKeys(st.Stubs), WallSec: time.Since(t1).Seconds(), LoadSec: loadSec,
 		Results: x.res, Solver: *solver, Alt: *alt, Complete: !x.stop, MaxSteps: *maxSteps}
 	sort.Slice(o.Results, func(i, j int) bool {
@@ -207,9 +219,19 @@ func main() {
 				fmt.Printf("  forks %8d  %s\n", e.v, e.k)
 			}
 		}
+		seen := map[string]int{}
 		for _, r := range o.Results {
 			if r.Kind != "ok" {
-				fmt.Printf("  %s: %s @%s\n    stack: %s\n    model: %v\n", r.Kind, r.Msg, r.Where, r.Stack, r.Model)
+				k := r.Kind + r.Msg
+				seen[k]++
+				if seen[k] <= 2 {
+					fmt.Printf("  %s: %s @%s\n    stack: %s\n    model: %v\n", r.Kind, r.Msg, r.Where, r.Stack, r.Model)
+				}
+			}
+		}
+		for k, n := range seen {
+			if n > 2 {
+				fmt.Printf("  (%d x) %s\n", n, k)
 			}
 		}
 	}
